@@ -105,6 +105,17 @@ func convRun(w *World, coll bool) {
 		}
 		cw.writers = append(cw.writers, wr)
 	}
+	if coll && t.Flag(1, 4) {
+		// an item that is created with nothing in it (a blank message is a value like any other: the item exists,
+		// Get and List return it, and subscribers are told)
+		wr := cw.writers[t.Choose(len(cw.writers))]
+		k := t.Choose(len(wr.ops))
+		wr.ops[k] = wop{Kind: opUpdate, ID: []string{"a", "b"}[t.Choose(2)], CreateIfAbs: true, Val: mm{}}
+		if t.Flag(1, 2) {
+			wr.ops[k].Kind = opAdd
+		}
+		w.Fault("blank-item")
+	}
 	ns := 1 + t.Choose(2)
 	for i := 0; i < ns; i++ {
 		ctx, cancel := context.WithCancel(context.Background())
